@@ -76,8 +76,31 @@ def decorated_listing(g, with_oracle=False):
     return (text, oracle) if with_oracle else text
 
 
+def prefixed_listing(g):
+    """lines on which objdump prints a prefix it could not attach as a word of its own in front of the mnemonic
+    (`ss ucomiss %xmm1,%xmm0`, `cs nopw 0x0(%rax,%rax,1)`, `addr32 call 401000 <f>`, `rex.W push %rax`): a single blank
+    separates mnemonic and operands there, and several mnemonics END in a prefix word (ucomiss, movss, xsaves, lods)"""
+    lines, addr = ["", "a.out:     file format elf64-x86-64", "", "Disassembly of section .text:", ""], g.pick([0, 0x1000, 0x401000])
+    for _ in range(g.int(1, 6)):
+        pre = g.pick(["ss", "cs", "ds", "es", "fs", "gs", "addr32", "data16", "rex.W", "rex.WRXB", "lock", "rep", "repz", "bnd", "notrack"])
+        mn = g.pick(["ucomiss", "sqrtss", "movss", "vaddss", "xsaves", "cvtsi2ss", "nopw", "call", "lods", "stos", "cmpxchg", "movs", "ret"])
+        ops = g.pick(["%xmm1,%xmm0", "(%rcx),%xmm0", "0x0(%rax,%rax,1)", "401000 <f>", "%ds:(%rsi),%al", "%rax,(%rdx)", ""])
+        nb = g.int(2, 7)
+        byts = " ".join("%02x" % g.int(0, 255) for _ in range(nb)) + " "
+        text = pre + " " + mn + ((" " + ops) if ops else "")
+        if g.chance(0.3):
+            text = mn.ljust(6) + " " + (ops or "%rax")          # the same mnemonic without a prefix word
+        lines.append("%s:\t%s\t%s" % (("%x" % addr).rjust(8), byts.ljust(21), text))
+        addr += nb
+    return "\n".join(lines) + "\n"
+
+
 def run(ctx, factor):
     g, rep = ctx.g, ctx.report
+    for _ in range(ctx.budget(60, 2000) * factor):
+        check_text(ctx, prefixed_listing(g), "prefix-word-lines", {})
+        if rep.has_new() and factor > 1:
+            return
     rep.rule = ("for every listing (grammar-generated, real objdump on random bytes) the instruction list handed over by the "
                 "real parser (recording consumer) is compared with the decoding of the real stream (split on |, first ::, "
                 "commas): must be identical; streams are also compared with the model's encoding and remembered to detect "
